@@ -198,12 +198,17 @@ func (c simHTTP) Do(req *http.Request) (*http.Response, error) {
 		at.Status = code
 		w.Attempts = append(w.Attempts, at)
 		s.logEv(Event{Kind: "http.Do", ID: req.URL.String(), Res: fate, Arg: req.Method})
-		doc := []byte(`{"@context":"https://www.w3.org/ns/activitystreams","type":"Note","id":"` + req.URL.String() + `"}`)
+		doc := txDoc(req.URL.String())
 		var rb io.ReadCloser = io.NopCloser(bytes.NewReader(doc))
+		clen := int64(-1)
+		if (len(s.Log)+len(req.URL.Path))%3 == 0 {
+			// a body that arrives in pieces, with its length announced (what a real connection does)
+			rb, clen = io.NopCloser(&pieceReader{b: doc, n: 1 + len(doc)/3}), int64(len(doc))
+		}
 		if fate == "short" {
 			rb = &shortBody{bytes.NewReader(doc[:len(doc)/2])}
 		}
-		return &http.Response{StatusCode: code, Status: fmt.Sprintf("%d %s", code, http.StatusText(code)), Body: rb, Header: http.Header{}, Request: req}, nil
+		return &http.Response{StatusCode: code, Status: fmt.Sprintf("%d %s", code, http.StatusText(code)), Body: rb, Header: http.Header{}, Request: req, ContentLength: clen}, nil
 	}
 	panic("sim: unknown fate " + fate)
 }
@@ -352,3 +357,30 @@ type tempNetErr struct{ url string }
 func (e tempNetErr) Error() string   { return "sim: " + e.url + ": connection reset by peer (temporary)" }
 func (e tempNetErr) Temporary() bool { return true }
 func (e tempNetErr) Timeout() bool   { return false }
+
+// txDoc: the document the simulated network serves at url.
+func txDoc(url string) []byte {
+	return []byte(`{"@context":"https://www.w3.org/ns/activitystreams","type":"Note","id":"` + url + `","content":"` + strings.Repeat("lorem ipsum ", 8) + `"}`)
+}
+
+// pieceReader hands its bytes out n at a time.
+type pieceReader struct {
+	b []byte
+	n int
+}
+
+func (p *pieceReader) Read(q []byte) (int, error) {
+	if len(p.b) == 0 {
+		return 0, io.EOF
+	}
+	k := p.n
+	if k > len(q) {
+		k = len(q)
+	}
+	if k > len(p.b) {
+		k = len(p.b)
+	}
+	copy(q, p.b[:k])
+	p.b = p.b[k:]
+	return k, nil
+}
